@@ -693,6 +693,7 @@ theorem limits_leaves : Leaves (keeps LimitsInv) where
   gate := fun b s a p m h => limitsInv_gate b s a p m h
   forget := fun b c h => limitsInv_forget b c h
   expire := fun b h => ⟨h.ids, h.conns, fun _ => Nat.zero_le _, h.completed, h.per_user⟩
+  expireSome := fun b f h => ⟨h.ids, h.conns, fun x => Nat.le_trans (callsOf_filter _ _ _) (h.pending x), h.completed, h.per_user⟩
   acquire := fun t c n flags hact h => limitsInv_acquire t c n flags hact h
   release := fun t c n h => limitsInv_release t c n h
   removeOwner := fun t n c h => limitsInv_removeOwner t n c h
